@@ -11,6 +11,10 @@ import Gv.Oracle.SW
 import Gv.Oracle.Models
 import Gv.Oracle.Pool
 import Gv.Oracle.Dist
+import Gv.Oracle.Fmt
+import Gv.Oracle.Weights
+import Gv.Oracle.Det
+import Gv.Oracle.ProtDist
 import Gv.Oracle.Loop
 /-! oracle with every handler (see `Gv/Oracle/Loop.lean`) -/
 open Gv Gv.Oracle
